@@ -10,14 +10,14 @@ PROPERTY = "C15"
 LEVEL = "exploration"
 CHUNK = 64
 RULE = ("all matrices over the integer palette with n rows, s sensitive and o other columns (all 3^(n(s+o)) of them while <= 60k, "
-        "otherwise the binary palette; quick: limit 7k) x sensitive positions {first, last, interleaved} x alpha in {1,0,1/2,0.3} x input as ndarray "
-        "(by position) and DataFrame (by name, shuffled index) x transform on a second matrix derived from the case; reference: "
+        "otherwise the binary palette; quick: limit 7k) x sensitive positions {first, last, interleaved} x alpha in {1,0,1/2,0.3} x input as float ndarray "
+        "(by position), integer-dtype ndarray / DataFrame and DataFrame (by name, shuffled index) x transform on a second matrix derived from the case; reference: "
         "centre each sensitive column by ITS OWN mean, projection via numpy.linalg.pinv; oracle: (a) alpha=1 => zero sample "
         "covariance with every sensitive column, (b) output = alpha*residual + (1-alpha)*original, (c) sensitive columns dropped, "
         "others in order, (d) transform(X2) applies the training means/coefficients, (e) DataFrame-by-name == ndarray-by-position. "
         "non-trivial = some sensitive column is non-constant and some other column is correlated with it; distinct = distinct matrices")
 ASSUMPTIONS = ["entries from a small integer palette (selected by VERIF_SEED); n<=4", "pinv-based projection is the reference least-squares solution"]
-CLASSES = ["constant_sensitive_column", "collinear_sensitive_columns", "two_or_more_sensitive", "dataframe_by_name", "alpha_fraction",
+CLASSES = ["integer_dtype_input", "constant_sensitive_column", "collinear_sensitive_columns", "two_or_more_sensitive", "dataframe_by_name", "alpha_fraction",
            "transform_new_data"]
 PALETTES = [(0, 1, 2), (0, 1, 3), (-1, 0, 2), (1, 2, 4)]
 ALPHAS = [1.0, 0.0, 0.5, 0.3]
@@ -128,6 +128,24 @@ def run_case(case):
                     np.round(Z2, 6).tolist(), np.round(exp2, 6).tolist(), X2.tolist(), ctx), exp2.tolist(), Z2.tolist(), snip))
             if lname == "first" and alpha == 1.0:
                 outcome = np.round(Z, 9).tolist()
+            # integer-dtype input (ndarray and DataFrame) must give the same result as the same numbers as floats
+            if alpha in (1.0, 0.5) and float(np.abs(X - np.round(X)).max()) == 0.0:
+                out["classes"].add("integer_dtype_input")
+                out["evals"] += 2
+                try:
+                    Xi = X.astype(np.int64)
+                    cri = CorrelationRemover(sensitive_feature_ids=spos, alpha=alpha)
+                    Zi = np.asarray(cri.fit_transform(Xi), float)
+                    Zi2 = np.asarray(cri.transform((X2).astype(np.int64)), float)
+                    Zdi = np.asarray(CorrelationRemover(sensitive_feature_ids=["c%d" % j for j in spos], alpha=alpha).fit_transform(
+                        pd.DataFrame(Xi, columns=["c%d" % j for j in range(k)])), float)
+                    if not np.allclose(Zi, exp, rtol=0, atol=1e-9 * scale) or not np.allclose(Zdi, exp, rtol=0, atol=1e-9 * scale) \
+                            or not np.allclose(Zi2, exp2, rtol=0, atol=4e-9 * scale):
+                        V.append(viol("C15:integer-dtype-differs", "integer-dtype input gives %r (DataFrame %r), the same numbers as floats give %r (%s)" % (
+                            np.round(Zi, 6).tolist(), np.round(Zdi, 6).tolist(), np.round(exp, 6).tolist(), ctx), exp.tolist(), Zi.tolist(),
+                            snip.replace("X=np.array(%r)" % (X.tolist(),), "X=np.array(%r).astype(int)" % (X.tolist(),))))
+                except Exception as e:
+                    V.append(viol("C15:integer-dtype-raises-%s" % type(e).__name__, "integer-dtype input raised %r (%s)" % (e, ctx)))
             # DataFrame by name, shuffled index, must equal ndarray by position
             if alpha in (1.0, 0.3):
                 out["classes"].add("dataframe_by_name")
